@@ -3,7 +3,7 @@
    round_step / do_on_dump, the functions the node model drives the signing FSM with (compared
    with the real FSM on every run), and about the regenerated signing table. *)
 From Coq Require Import String List NArith ZArith Bool Lia.
-Require Import Fsm.EngineDefs Fsm.Types Fsm.Engine Fsm.EngineFacts Fsm.Actions Fsm.Provider Fsm.RejectNoop Fsm.SigningFacts.
+Require Import Fsm.EngineDefs Fsm.Types Fsm.Engine Fsm.EngineFacts Fsm.Actions Fsm.Provider Fsm.Handover Fsm.RejectNoop Fsm.SigningFacts.
 Require Gen.Tables.
 Import ListNotations.
 Local Open Scope string_scope.
@@ -80,7 +80,9 @@ Proof.
   intros H1 H2. unfold do_on_dump.
   change (from_dump (mkd st_await p)) with
     (LoadOk {| i_mach := "signing_proposal_fsm"; i_cur := st_await; i_dstate := st_await; i_payload := p |}).
-  unfold inst_do. cbn [i_mach i_cur i_payload].
+  cbv beta iota.
+  rewrite (inst_do_owner _ Gen.Tables.signing_table) by reflexivity.
+  unfold inst_do_core. cbn [i_mach i_cur i_payload].
   change (table_by_name "signing_proposal_fsm") with (Some Gen.Tables.signing_table).
   unfold fsm_do.
   destruct (find_trans (ft_transitions Gen.Tables.signing_table) st_await ev) as [tr|] eqn:E; [|reflexivity].
